@@ -28,6 +28,11 @@ def instances(tier):
         for d in range(1, depth[n] + 1):
             for seq in itertools.product(range(len(ks)), repeat=d):
                 out.append(dict(name='hist[n%d,%s]' % (n, '>'.join('+'.join(ks[i]) for i in seq)), fn='history', args=dict(n=n, seq=[ks[i] for i in seq])))
+    # declaration order of the types differs from alphabetical order (reads by name must not depend on it)
+    for order in (['B', 'A'], ['C', 'A', 'B'], ['B', 'C', 'A']):
+        n = len(order)
+        for seq in ([order], [[order[0]], [order[-1]]], [[order[-1]], [order[0]], [order[1]]], [[order[1]], order]):
+            out.append(dict(name='hist[order=%s,%s]' % (''.join(order), '>'.join('+'.join(k) for k in seq)), fn='history', args=dict(n=n, seq=seq, order=order)))
     # 4 types: everything assigned, then one re-assignment of each key
     for k in keys_for(4):
         out.append(dict(name='hist[n4,all>%s]' % '+'.join(k), fn='history', args=dict(n=4, seq=[['A', 'B', 'C', 'D'], k])))
@@ -35,8 +40,8 @@ def instances(tier):
     return out
 
 
-def history(E, n, seq):
-    types = ['A', 'B', 'C', 'D'][:n]
+def history(E, n, seq, order=None):
+    types = order or ['A', 'B', 'C', 'D'][:n]
     rho = pyPRISM.Density(types)
     dia = pyPRISM.Diameter(types)
     R = {}; Dm = {}
